@@ -164,7 +164,7 @@ func readDisk(d datastore.Batching, f *fixture) ([]diskRes, error) {
 			if strings.HasSuffix(e.Key, "/"+k) && strings.Contains(e.Key, "sampling_result") {
 				var sr light.SamplingResult
 				if err := json.Unmarshal(e.Value, &sr); err != nil {
-					return nil, err
+					sr = light.SamplingResult{} // a damaged record: something is stored, without coordinates
 				}
 				out[h-1] = diskRes{Set: true, Avail: f.codes(sr.Available), Rem: f.codes(sr.Remaining)}
 			}
@@ -395,13 +395,16 @@ type harness struct {
 	broken string // harness-level failure (inconclusive)
 	// cwHolder[height] = the caller that held the session when a waiter for that height was cancelled
 	cwHolder map[int]int
+	curK     int          // sample amount of the running instance
+	called   map[int]bool // heights SharesAvailable was ever called for in this scenario
+	planted  map[int]bool // heights with a planted record
 	wg       sync.WaitGroup
 	steps    int
 }
 
 func newHarness(cfg config, fix *fixture, mon *monitor) *harness {
 	h := &harness{cfg: cfg, fix: fix, events: make(chan event, 256), disk: newDisk(), mon: mon, wd: 60 * time.Second,
-		cwHolder: map[int]int{}}
+		cwHolder: map[int]int{}, curK: cfg.K, called: map[int]bool{}, planted: map[int]bool{}}
 	for i := range h.call {
 		h.call[i] = &callerState{phase: "idle"}
 	}
@@ -414,7 +417,15 @@ func (h *harness) newInstance() {
 	if h.cfg.Cascade {
 		g = getters.NewCascadeGetter([]shwap.Getter{g})
 	}
-	h.avail = light.NewShareAvailability(&seenGetter{Getter: g, h: h}, h.disk, nil, light.WithSampleAmount(uint(h.cfg.K)))
+	h.avail = light.NewShareAvailability(&seenGetter{Getter: g, h: h}, h.disk, nil, light.WithSampleAmount(uint(h.curK)))
+}
+
+// need = min(sample amount of the running instance, square area)
+func (h *harness) need() int {
+	if h.curK < h.cfg.area() {
+		return h.curK
+	}
+	return h.cfg.area()
 }
 
 func (h *harness) emit(ev string, kv ...any) {
@@ -423,6 +434,15 @@ func (h *harness) emit(ev string, kv ...any) {
 		m[kv[i].(string)] = kv[i+1]
 	}
 	h.trace = append(h.trace, m)
+}
+
+// isRefusedRecord: the stored sampling result was refused -- its size fits neither the sample
+// amount nor the square ("invalid sampling result"), or it does not decode at all.
+func isRefusedRecord(err error) bool {
+	var se *json.SyntaxError
+	var te *json.UnmarshalTypeError
+	return strings.Contains(err.Error(), "invalid sampling result") || errors.As(err, &se) || errors.As(err, &te) ||
+		strings.Contains(err.Error(), "unexpected end of JSON input")
 }
 
 func verdict(err error) string {
@@ -435,6 +455,8 @@ func verdict(err error) string {
 		return "outside"
 	case errors.Is(err, context.Canceled):
 		return "cancelled"
+	case isRefusedRecord(err):
+		return "invalid"
 	default:
 		return "other: " + err.Error()
 	}
@@ -602,6 +624,7 @@ func (h *harness) doCall(c, ht int) bool {
 		// the situation of interest: A in the getter, a waiter behind it gave up, a further call arrives
 		h.mon.rep.Count("call_after_cancelled_waiter", 1)
 	}
+	h.called[ht] = true
 	gidCh := make(chan int64, 1)
 	*cs = callerState{phase: "running", height: ht, cancel: cancel, gidCh: gidCh}
 	h.emit("call", "c", c, "h", ht)
@@ -701,7 +724,7 @@ func (h *harness) emitDisk(ev string) {
 		h.broken = "cannot read the underlying datastore: " + err.Error()
 		return
 	}
-	h.emit(ev, "disk", d)
+	h.emit(ev, "disk", d, "k", h.curK)
 	h.mon.onDisk(h, ev, d)
 }
 
@@ -715,13 +738,17 @@ func (h *harness) doFlush() bool {
 }
 
 // restart = Close, then a fresh instance over the same datastore (only between calls)
-func (h *harness) doRestart() bool {
+func (h *harness) doRestart(newK int) bool {
 	if !h.quiet() {
 		return false
 	}
 	if err := h.avail.Close(context.Background()); err != nil {
 		h.broken = "Close failed: " + err.Error()
 		return false
+	}
+	if newK > 0 && newK != h.curK {
+		h.curK = newK
+		h.mon.rep.Count("restarts_with_other_sample_amount", 1)
 	}
 	h.newInstance()
 	h.emitDisk("restart")
@@ -730,7 +757,7 @@ func (h *harness) doRestart() bool {
 
 // crash = a fresh instance over a snapshot of the underlying datastore, taken without Close;
 // the interrupted instance and its calls are let go.
-func (h *harness) doCrash() bool {
+func (h *harness) doCrash(newK int) bool {
 	snap, err := snapshot(h.disk)
 	if err != nil {
 		h.broken = "snapshot failed: " + err.Error()
@@ -749,8 +776,40 @@ func (h *harness) doCrash() bool {
 	}
 	h.disk = snap
 	h.cwHolder = map[int]int{}
+	if newK > 0 && newK != h.curK {
+		h.curK = newK
+		h.mon.rep.Count("restarts_with_other_sample_amount", 1)
+	}
 	h.newInstance()
 	h.emitDisk("crash")
+	return true
+}
+
+// plantKinds: records without coordinates somebody else may leave under a block's key.
+var plantKinds = map[string]string{
+	"null":      `null`,
+	"empty":     `{}`,
+	"lists":     `{"available":[],"remaining":[]}`,
+	"nulls":     `{"available":null,"remaining":null}`,
+	"truncated": `{"available":[{"row":0,"col":1}],"remai`,
+	"foreign":   `{"height":7,"hash":"00ff"}`,
+}
+
+// doPlant writes such a record straight into the underlying datastore, for a block the instance
+// has not been asked about yet (so nothing of it is stored, buffered or in flight).
+func (h *harness) doPlant(ht int, kind string) bool {
+	val, ok := plantKinds[kind]
+	if !ok || (ht != 1 && ht != 2) || h.called[ht] || h.planted[ht] {
+		return false
+	}
+	key := datastore.NewKey("sampling_result").ChildString(h.fix.rootKey[ht])
+	if err := h.disk.Put(context.Background(), key, []byte(val)); err != nil {
+		h.broken = "plant: " + err.Error()
+		return false
+	}
+	h.planted[ht] = true
+	h.emit("plant", "h", ht, "kind", kind)
+	h.mon.rep.Count("planted_records", 1)
 	return true
 }
 
@@ -773,7 +832,7 @@ func (h *harness) finish(pick func(n int) outcome) {
 		}
 	}
 	if h.broken == "" {
-		h.doRestart()
+		h.doRestart(0)
 	}
 }
 
